@@ -336,6 +336,13 @@ FIXED += [
                                       "on": [F("eq", V("v0", "a"), V("v1", "z"))]}], "result": "v2"}),
 ]
 
+FIXED += [
+    ("F48-sql-str-slice-untyped", "C03", "SQL str.slice returns a typed string expression",
+     "SQL: concatenating str.slice results used numeric '+' (SQLite returned 0)",
+     {"tables": [TB], "steps": [S(), st("v1", "mutate", "v0", items=[["z", F("add", F("str.slice", C("s"), L(0), L(2)), F("str.slice", C("s"), L(1), L(1)))]])],
+      "result": "v1"}),
+]
+
 
 def main():
     log = subprocess.run(["git", "-C", "/repo", "log", "--format=%h %s"], capture_output=True, text=True).stdout.splitlines()
